@@ -270,6 +270,15 @@ func probesOf(c *Case) []*Probe {
 			ps = append(ps, specProbe("sqlcanon", q.Impl["PG"][3:]))
 		}
 		return ps
+	case "dfpair":
+		// C11: the same query with and without a default field
+		a := qProbe(c.S, c.DF)
+		b := qProbe(c.S, "")
+		ps := []*Probe{a, b}
+		if strings.HasPrefix(a.Impl["P"], "ok:") && strings.HasPrefix(b.Impl["P"], "ok:") {
+			ps = append(ps, specProbe("c11", a.Impl["P"][3:], b.Impl["P"][3:], impl.Hex(c.DF)))
+		}
+		return ps
 	case "qwf":
 		// the implementation's tree is judged by the model's independent shape check (C10)
 		q := qProbe(c.S, c.DF)
